@@ -12,7 +12,8 @@ PID = "C01"
 TITLE = "Namespace-scope declarations are extracted faithfully"
 THEOREM_FILE = "Props/C01.v"
 MODELLED = ("modelled and proved: the declarator core (Parse/Declarator.v), the declarator loop of _parse_declarations for variables "
-            "(decl_list: one base type, ','-separated declarators, ';'), and the collecting visitor as a fold over the block forest (Parse/Fold.v). "
+            "(decl_list: one base type, ','-separated declarators, ';'), function declarations up to the ')' (fn_decl), the enumerator list "
+            "(Parse/EnumList.v over _consume_value_until), and the collecting visitor as a fold over the block forest (Parse/Fold.v). "
             "NOT modelled (decided by the AST-first search only): the dispatch of CxxParser.parse / _parse_declarations / _parse_decl between the "
             "declaration forms, specifier collection and validation, functions and their tails (noexcept, throw, trailing return, bodies, "
             "= delete), out-of-class method definitions, enums, using forms, templates headers, concepts, instantiations, deduction guides, "
@@ -226,10 +227,103 @@ def correspond_fns(ctx, corr):
             corr.disagreements.append(dict(case=dict(kind='corr-fn', tokens=toks), model=str(m)[:300], impl=str(r)[:300], what=msg))
 
 
+ENUM_VALUES = [['1'], ['1', '<<', '2'], ['(', 'A', '|', 'B', ')'], ['f', '(', '1', ',', '2', ')'], ['sizeof', '(', 'int', ')'], ["'x'"],
+               ['a', '[', '1', ',', '2', ']', '+', '1'], ['X', '{', '1', ',', '2', '}'], ['-', '1'], ['N', '*', '(', '2', '+', 'K', ')'], []]
+
+
+def real_enum(text):
+    try:
+        d = parse_string(text)
+    except (impl.CxxParseError, AssertionError, RecursionError):
+        return ('err',)
+    ns = d.namespace
+    if len(ns.enums) != 1 or ns.variables or ns.functions or ns.typedefs or ns.classes:
+        return ('other',)
+    out = []
+    for e in ns.enums[0].values:
+        out.append((e.name, None if e.value is None else tuple(t.value for t in e.value.tokens)))
+    return ('ok', out)
+
+
+def model_enums(bodies):
+    lines, nms = [], []
+    for toks in bodies:
+        names = decl.Names()
+        lines.append([84, len(toks) + 2] + decl.enc_tokens(toks, names))
+        nms.append(names)
+    outs = run_driver(lines)
+    res = []
+    for o, names in zip(outs, nms):
+        if o[0] != 0:
+            res.append(('err', o[1]))
+            continue
+        rest, k = o[1], o[2]
+        i = 3
+        items = []
+        for _ in range(k):
+            name = names.rev.get(o[i], '?')
+            if o[i + 1] == 0:
+                items.append((name, None))
+                i += 2
+            else:
+                ln = o[i + 2]
+                vals = tuple(names.rev[o[i + 3 + 2 * j + 1]] if o[i + 3 + 2 * j + 1] else impl.TT[o[i + 3 + 2 * j]] for j in range(ln))
+                items.append((name, vals))
+                i += 3 + 2 * ln
+        res.append(('ok', items, rest))
+    return res
+
+
+def correspond_enums(ctx, corr):
+    rng = ctx.rng
+    bodies, metas = [], []
+    for _ in range(ctx.scale(600, 12000)):
+        items = []
+        toks = []
+        n = rng.choice([0, 1, 2, 3, 5])
+        for i in range(n):
+            v = rng.choice([None, None] + ENUM_VALUES)
+            items.append(('K%d' % i, None if v is None else tuple(v)))
+            if i:
+                toks.append(',')
+            toks.append('K%d' % i)
+            if v is not None:
+                toks += ['='] + list(v)
+        if n and rng.random() < 0.3:
+            toks.append(',')
+        toks += ['}', ';']
+        bodies.append(toks)
+        metas.append(('enum-valid', items))
+        if rng.random() < 0.5 and len(toks) > 3:
+            bodies.append(c02.mutate(rng, toks[:-2]) + ['}', ';'])
+            metas.append(('enum-mutated', None))
+    ms = model_enums(bodies)
+    for toks, (kind, items), m in zip(bodies, metas, ms):
+        corr.cases += 1
+        r = real_enum('enum E { ' + ' '.join(toks))
+        key = kind + ":" + (m[0] if m[0] == 'ok' else 'err%d' % m[1]) + "/" + r[0]
+        corr.dist[key] = corr.dist.get(key, 0) + 1
+        msg = None
+        if m[0] == 'ok' and m[2] == 1:
+            if r[0] != 'ok':
+                msg = "model reports %d enumerators but the implementation %s" % (len(m[1]), "rejects the input" if r[0] == 'err' else "reports something else")
+            elif r[1] != m[1]:
+                msg = "model: %s; implementation: %s" % (m[1], r[1])
+        elif m[0] == 'err' and m[1] in (1, 2, 3) and r[0] == 'ok':
+            msg = "model rejects (code %d) but the implementation reports %s" % (m[1], r[1])
+        elif m[0] == 'err' and m[1] == 9:
+            msg = "model ran out of budget"
+        if msg is None and kind == 'enum-valid' and (m[0] != 'ok' or m[1] != items):
+            msg = "model does not decode the printed enumerator list `%s`" % ' '.join(toks)
+        if msg:
+            corr.disagreements.append(dict(case=dict(kind='corr-enum', tokens=toks), model=str(m)[:300], impl=str(r)[:300], what=msg))
+
+
 def correspond(ctx):
     corr = Corr()
     rng = ctx.rng
     correspond_fns(ctx, corr)
+    correspond_enums(ctx, corr)
     cases, metas = [], []
     for _ in range(ctx.scale(1200, 25000)):
         toks, items = gen_decl_stmt(rng)
@@ -398,6 +492,14 @@ def search(ctx, boost=False):
 
 def replay(ctx, case):
     k = case.get("kind")
+    if k == 'corr-enum':
+        m = model_enums([case["tokens"]])[0]
+        r = real_enum('enum E { ' + ' '.join(case["tokens"]))
+        if m[0] == 'ok' and m[2] == 1 and (r[0] != 'ok' or r[1] != m[1]):
+            return ["enumerator list: model %s, implementation %s" % (m[1], r)]
+        if m[0] == 'err' and m[1] in (1, 2, 3) and r[0] == 'ok':
+            return ["enumerator list: model rejects, implementation reports %s" % (r[1],)]
+        return []
     if k == 'corr-fn':
         m = model_fns([case["tokens"]])[0]
         msg = compare_fn(m, real_fn(' '.join(case["tokens"])))
